@@ -160,6 +160,8 @@ func propC01(w *World, r *Report) {
 	}
 	checkPreTriggerLoop(w, r, runs, "O3")
 	checkRingHistoryForms(w, r, "O3")
+	checkRingMove(w, r, "O3")
+	checkRingResetAndOldest(w, r, "O2")
 	checkMarkOnlyAfterStop(w, r, run, "O2")
 	if len(roles.Problems) > 0 {
 		r.Note("role resolution notes: %s", strings.Join(roles.Problems, "; "))
@@ -287,6 +289,8 @@ func propC02(w *World, r *Report) {
 	r.Check(found == 1, "G4", "ring constructed once in the constructor", "-", fmt.Sprintf("%d", found))
 	checkPreTriggerLoop(w, r, runs, "P2")
 	checkRingHistoryForms(w, r, "P2")
+	checkRingMove(w, r, "P2")
+	checkRingResetAndOldest(w, r, "P4")
 	checkMarkOnlyAfterStop(w, r, runs.fault, "P4")
 	// P3
 	exits := exitCtxs(runs.nofault)
